@@ -115,6 +115,9 @@ CLAIMED = {
     "C36": ("TREE (root over all faces; node box from every corner of every face handed to the node; list k to child k; both children or a leaf holding all faces on every path), PARTITION (every face of the parent in exactly one child list), LEAF (whole-leaf scans; face / distance / coordinates written together from the scanned triangle), MERGE (an interior node's answer comes from one child) on ContactGeometry_TriangleMesh.cpp",
             "Static decision of the tree-bookkeeping clauses of C36 (DESIGN section 3) for ContactGeometry::TriangleMesh: for every mesh, each OBB-tree node's box is built from all corners of all the faces the node holds, so 'each node contains its triangles' reduces to 'a box contains the points it was built from'; the leaves partition the faces and every leaf is scanned completely, so a complete descent sees exactly the faces a brute-force scan sees; the face, distance and coordinates reported belong to one triangle and one child. "
             "Containment by OrientedBoundingBox / Geo bounding spheres, the point-triangle and ray-triangle geometry, the soundness of the distance-based pruning of the descents, mesh topology and file round trips are NOT decided."),
+    "C30": ("HOMOG (homogeneity-degree typing of the closed-form quadratic: every stored root has degree 0 in the coefficients; sums, differences and comparisons homogeneous; constants compared only as 0), COPY (cubic / general drivers: all n+1 coefficients in order, degree = number of roots asked for, output pair i to root i), STATUS (zero leading coefficient and solver failure codes throw) on PolynomialRootFinder.cpp",
+            "Static decision of the scale-invariance and bookkeeping clauses of C30 (DESIGN section 3): the roots returned by the closed-form quadratic code are invariant under scaling of the polynomial (a necessary condition of being its roots for every input), the iterative solvers are handed exactly the polynomial that was given and their output is copied root by root, and failures are reported. "
+            "Convergence and accuracy of rpoly / cpoly, the value of a degree-0 formula, Vieta's relations and conjugate pairing are numerical and NOT decided."),
 }
 NA = {
  "C03": "derivative relation between numeric routines; needs symbolic differentiation (other family)",
@@ -127,7 +130,6 @@ NA = {
  "C27": "orthonormality and round trips are numerical",
  "C28": "derivative identities between hand-expanded formulas",
  "C29": "numerical identities; rejection clause lives in debug-only checks compiled out",
- "C30": "root residuals and convergence are numerical",
  "C34": "numerical geometry with iterative solvers",
  "C37": "constitutive formulas, clamps and friction limits are numerical",
  "C41": "derivative/value consistency of formulas is numerical/symbolic",
